@@ -1,7 +1,7 @@
 """C05 — signatures are valid, recoverable, low-s and RFC 6979 deterministic."""
 import hashlib
 
-from ..gen import both, boundary_scalar, lib_case, rand_bytes
+from ..gen import both, boundary_scalar, lib_case, rand_bytes, COLLIDING_KEYS, near_collisions
 from ..ref import eth, secp
 from ..ref.keccak import keccak256
 from ..run.core import V
@@ -92,6 +92,23 @@ def gen(shard, rng, tier):
             for z in special_d:
                 yield from case(x, z.to_bytes(32, "big"), "boundary")
     pool_x, pool_d = [], []
+    if shard.get("first"):
+        # consecutive calls in one process whose inputs nearly collide: same digest under two keys whose addresses / public keys share
+        # their first bytes; same key over digests that differ in a few bytes; keys that differ in one bit
+        for _ in range(6):
+            for ka, kb in COLLIDING_KEYS:
+                d = rand_bytes(rng, 32)
+                for x in (ka, kb, ka, kb):
+                    yield from case(x, d, "colliding-identity", True)
+            da, db = near_collisions(rng)
+            x = boundary_scalar(rng)
+            for d in (da, db, da):
+                yield from case(x, d, "near-colliding-digests", True)
+            xa, xb = near_collisions(rng)
+            xa, xb = int.from_bytes(xa, "big") % (N - 1) + 1, int.from_bytes(xb, "big") % (N - 1) + 1
+            d = rand_bytes(rng, 32)
+            for x in (xa, xb, xa):
+                yield from case(x, d, "near-colliding-keys", True)
     for i in range(shard["count"]):
         x = boundary_scalar(rng)
         # pools: the same key with another digest and the same digest with another key inside one server process
